@@ -555,7 +555,7 @@ fn run_c14(seed: u64, tier: Tier) -> i32 {
 fn run_c18(seed: u64, tier: Tier) -> i32 {
   let t0 = Instant::now();
   let workers = workers_from_env();
-  let cli = std::env::var("VERIF_CLI").unwrap_or_else(|_| "/verif/target/repo/debug/cddl".to_string());
+  let cli = std::env::var("VERIF_CLI").unwrap_or_else(|_| report::verif_dir().join("target/repo/debug/cddl").to_string_lossy().to_string());
   if !std::path::Path::new(&cli).exists() {
     eprintln!("HARNESS-ERROR: the cddl binary {} does not exist (./check builds it from /repo)", cli);
     return 2;
